@@ -1688,20 +1688,40 @@ func (rc *RegClient) imageImportOCIHandleManifest(ctx context.Context, r ref.Ref
 	// add a finish func to push the manifest, this gets skipped for the index.json
 	if push {
 		trd.finish = append(trd.finish, func() error {
-			mRef := r.SetDigest(m.GetDescriptor().Digest.String())
-			_, err := rc.ManifestHead(ctx, mRef)
-			if err == nil {
-				return nil
-			}
-			opts := []ManifestOpts{}
-			if child {
-				opts = append(opts, WithManifestChild())
-			}
-			return rc.ManifestPut(ctx, mRef, m, opts...)
+			return rc.imageImportOCIPushTree(ctx, r, m, trd, child, 0)
 		})
 	}
 	trd.handleAdded = true
 	return nil
+}
+
+// imageImportOCIPushTree pushes a manifest after the (imported) manifests it lists, whatever order they were discovered in.
+func (rc *RegClient) imageImportOCIPushTree(ctx context.Context, r ref.Ref, m manifest.Manifest, trd *tarReadData, child bool, depth int) error {
+	if depth > 32 {
+		return fmt.Errorf("manifest nesting too deep")
+	}
+	mRef := r.SetDigest(m.GetDescriptor().Digest.String())
+	if _, err := rc.ManifestHead(ctx, mRef); err == nil {
+		return nil
+	}
+	if mi, ok := m.(manifest.Indexer); ok && m.IsList() {
+		dl, err := mi.GetManifestList()
+		if err != nil {
+			return err
+		}
+		for _, cd := range dl {
+			if cm, ok := trd.manifests[cd.Digest]; ok {
+				if err := rc.imageImportOCIPushTree(ctx, r, cm, trd, true, depth+1); err != nil {
+					return err
+				}
+			}
+		}
+	}
+	opts := []ManifestOpts{}
+	if child {
+		opts = append(opts, WithManifestChild())
+	}
+	return rc.ManifestPut(ctx, mRef, m, opts...)
 }
 
 // imageImportOCIPushManifests uploads manifests after OCI blobs were successfully loaded.
